@@ -230,3 +230,12 @@ def dispatch(ctx):
         ctx.eq(R, p, b.get(p), V(p), ctx.where(fa, un[0]), 'option forwarded to the parameter of the same name')
     ctx.eq(R, 'cool_uri', b.get('cool_uri'), V('cool_uri'), ctx.where(fa, un[0]))
     ctx.eq(R, 'bins', b.get('bins'), V('bins'), ctx.where(fa, un[0]))
+
+
+_run_core = run
+
+
+def run(ctx):
+    _run_core(ctx)
+    from . import refs_misc
+    refs_misc.run_for(ctx, 'C06')
